@@ -53,20 +53,36 @@ def _strip_comments(text):
     return re.sub(r"--.*", "", text)
 
 
-def lean_sources():
-    out = []
-    for root, _dirs, files in os.walk(LEAN):
-        if ".lake" in root:
+def lean_sources(roots=None):
+    """All Lean sources, or (roots given) the import closure of those modules inside lean/."""
+    if roots is None:
+        out = []
+        for root, _dirs, files in os.walk(LEAN):
+            if ".lake" in root:
+                continue
+            for f in files:
+                if f.endswith(".lean"):
+                    out.append(os.path.join(root, f))
+        return sorted(out)
+    seen = {}
+    todo = list(roots)
+    while todo:
+        mod = todo.pop()
+        if mod in seen:
             continue
-        for f in files:
-            if f.endswith(".lean"):
-                out.append(os.path.join(root, f))
-    return sorted(out)
+        path = os.path.join(LEAN, *mod.split(".")) + ".lean"
+        if not os.path.exists(path):
+            continue
+        seen[mod] = path
+        with io.open(path, encoding="utf-8") as fh:
+            for m in re.finditer(r"^import\s+((?:OdmlModel|Driver)[\w.]*)", fh.read(), re.M):
+                todo.append(m.group(1))
+    return sorted(seen.values())
 
 
-def forbidden_tokens():
+def forbidden_tokens(roots=None):
     hits = []
-    for path in lean_sources():
+    for path in lean_sources(roots):
         with io.open(path, encoding="utf-8") as fh:
             body = _strip_comments(fh.read())
         for m in FORBIDDEN.finditer(body):
@@ -127,8 +143,8 @@ def audit(prop, obligations):
 class Model(object):
     """Batch access to the compiled Lean driver."""
 
-    def __init__(self, prop):
-        self.exe = os.path.join(BIN, "drv_" + prop.lower())
+    def __init__(self, name):
+        self.exe = os.path.join(BIN, name)
         if not os.path.exists(self.exe):
             raise Infra("driver not built: %s" % self.exe)
 
@@ -140,7 +156,9 @@ class Model(object):
                               stderr=subprocess.PIPE, timeout=3000)
         if proc.returncode != 0:
             raise Infra("driver exited %s: %s" % (proc.returncode, proc.stderr[-500:]))
-        lines = proc.stdout.decode("utf-8").splitlines()
+        lines = proc.stdout.decode("utf-8").split("\n")
+        if lines and lines[-1] == "":
+            lines.pop()
         if len(lines) != len(requests):
             raise Infra("driver answered %d lines for %d requests" % (len(lines), len(requests)))
         out = []
@@ -182,6 +200,11 @@ class Check(object):
     requests, the comparison and the implementation-level oracle.
     """
     prop = None
+    driver_name = None        # lake exe target of the model driver (default drv_<prop>)
+
+    def driver(self):
+        return self.driver_name or ("drv_" + self.prop.lower())
+
     obligations = []          # Lean theorem names that must be discharged
     lean_targets = []         # lake targets besides the driver
     trusted_base = []
@@ -189,6 +212,7 @@ class Check(object):
     rule = ""
     quick_n = 1000
     thorough_n = 20000
+    case_timeout = 20         # seconds per case on the implementation; exceeding it = "did not terminate"
 
     # -- to override ---------------------------------------------------------
     def corpus(self):
@@ -235,11 +259,26 @@ class Check(object):
 
     # -- machinery -----------------------------------------------------------
     def safe_impl(self, case):
+        import signal
+
+        def on_alarm(_sig, _frm):
+            raise CaseTimeout()
+        old = signal.signal(signal.SIGALRM, on_alarm)
+        signal.setitimer(signal.ITIMER_REAL, self.case_timeout)
         try:
             with quiet():
                 return self.impl(case)
+        except CaseTimeout:
+            return {"timeout": True}
         except Exception as exc:      # the executor itself must not die on a mutant
             return {"harness_exception": exc_name(exc), "trace": traceback.format_exc()[-1500:]}
+        finally:
+            signal.setitimer(signal.ITIMER_REAL, 0)
+            signal.signal(signal.SIGALRM, old)
+
+
+class CaseTimeout(BaseException):
+    """Raised inside a case that runs longer than Check.case_timeout."""
 
 
 _CHECK = None
@@ -253,6 +292,8 @@ def _worker_init(check):
 
 def _worker_run(case):
     obs = _CHECK.safe_impl(case)
+    if obs.get("timeout") if isinstance(obs, dict) else False:
+        return obs, ["the implementation did not terminate within %ds on this case" % _CHECK.case_timeout]
     try:
         with quiet():
             fails = _CHECK.oracle(case, obs)
@@ -310,14 +351,14 @@ def main(check, argv):
         notes.append("table extraction failed: %s" % table_info["error"])
 
     # 2./3. build + audit
-    ok, log = lake_build(list(check.lean_targets) + ["drv_" + prop.lower()])
+    ok, log = lake_build(list(check.lean_targets) + [check.driver()])
     proof_problems = []
     discharged = []
     if not ok:
         proof_problems.append("lake build failed: " + log.strip()[-1500:])
     else:
         discharged, proof_problems = audit(prop, check.obligations)
-    hits = forbidden_tokens()
+    hits = forbidden_tokens(list(check.lean_targets) + ["OdmlModel.Audit.%s" % prop, "Driver.%s" % check.driver()[4:].upper()])
     if hits:
         proof_problems.append("forbidden tokens in Lean sources: %s" % hits[:5])
     if "error" in table_info:
@@ -345,17 +386,21 @@ def main(check, argv):
     validated = 0
     if model_ok:
         try:
-            model = Model(prop)
+            model = Model(check.driver())
             reqs = []
             spans = []
             for case, (obs, _f) in zip(cases, results):
-                r = check.model_requests(case, obs) if "harness_exception" not in obs else []
+                r = check.model_requests(case, obs) \
+                    if "harness_exception" not in obs and "timeout" not in obs else []
                 spans.append((len(reqs), len(reqs) + len(r)))
                 reqs.extend(r)
             answers = model.ask(reqs)
             for idx, (case, (obs, _f)) in enumerate(zip(cases, results)):
                 if "harness_exception" in obs:
-                    disagreements.append((idx, ["implementation executor failed: %s" % obs["harness_exception"]]))
+                    disagreements.append((idx, ["implementation executor failed: %s %s"
+                                                % (obs["harness_exception"], obs.get("trace", "")[-600:])]))
+                    continue
+                if "timeout" in obs:
                     continue
                 lo, hi = spans[idx]
                 d = check.compare(case, obs, answers[lo:hi])
@@ -374,7 +419,10 @@ def main(check, argv):
     dist = {}
     nontrivial = set()
     for idx, (case, (obs, fails)) in enumerate(zip(cases, results)):
-        tagname, nt = check.tag(case, obs)
+        try:
+            tagname, nt = check.tag(case, obs)
+        except Exception:
+            tagname, nt = ("untagged", False)
         dist[tagname] = dist.get(tagname, 0) + 1
         if nt:
             nontrivial.add(canon(case))
@@ -412,17 +460,21 @@ def main(check, argv):
             what["correspondence"] = {"case_index": idx, "case": cases[idx],
                                       "implementation": results[idx][0], "disagreement": d,
                                       "others": len(disagreements) - 1}
-        # search harder on the implementation before giving up
+        # search harder on the implementation before giving up (bounded by time)
         found = None
         if tier == "quick":
-            extra = check.generate("thorough", random.Random(seed + 7919))
-            _worker_init(check)
-            for c in extra[:20000]:
-                obs, fails = _worker_run(c)
-                fails = [f for f in fails if check.finding_key(c, obs, f) not in known_keys]
-                if fails:
-                    found = (c, obs, fails)
-                    break
+            extra = check.generate("thorough", random.Random(seed + 7919))[:20000]
+            ctx = multiprocessing.get_context("fork")
+            t_search = time.time()
+            with ctx.Pool(min(16, os.cpu_count() or 1), initializer=_worker_init, initargs=(check,)) as pool:
+                for c, (obs, fails) in zip(extra, pool.imap(_worker_run, extra, chunksize=16)):
+                    fails = [f for f in fails if check.finding_key(c, obs, f) not in known_keys]
+                    if fails:
+                        found = (c, obs, fails)
+                        break
+                    if time.time() - t_search > float(os.environ.get("VERIF_SEARCH_S", "90")):
+                        break
+                pool.terminate()
         if found:
             path = write_replay(prop, "oracle_search_seed%d" % seed, {
                 "property": prop, "kind": "oracle", "seed": seed, "tier": tier,
@@ -497,8 +549,8 @@ def replay(check, path):
     print("implementation: %s" % json.dumps(obs, default=repr)[:2000])
     dis = []
     try:
-        lake_build(list(check.lean_targets) + ["drv_" + check.prop.lower()])
-        answers = Model(check.prop).ask(check.model_requests(case, obs))
+        lake_build(list(check.lean_targets) + [check.driver()])
+        answers = Model(check.driver()).ask(check.model_requests(case, obs))
         dis = check.compare(case, obs, answers)
         print("model: %s" % json.dumps(answers)[:2000])
     except Exception as exc:
